@@ -213,6 +213,9 @@ func (l *LookupEdgeAdjOut) Process(ctx context.Context, man gdbi.Manager, in gdb
 		for t := range in {
 			if t.IsSignal() {
 				queryChan <- gdbi.ElementLookup{Ref: t}
+			} else if t.IsNull() {
+				//nothing to follow from a null traveler
+				continue
 			} else {
 				queryChan <- gdbi.ElementLookup{
 					ID:  t.GetCurrent().To,
@@ -292,6 +295,9 @@ func (l *LookupEdgeAdjIn) Process(ctx context.Context, man gdbi.Manager, in gdbi
 		for t := range in {
 			if t.IsSignal() {
 				queryChan <- gdbi.ElementLookup{Ref: t}
+			} else if t.IsNull() {
+				//nothing to follow from a null traveler
+				continue
 			} else {
 				queryChan <- gdbi.ElementLookup{
 					ID:  t.GetCurrent().From,
@@ -406,6 +412,11 @@ func (f *Fields) Process(ctx context.Context, man gdbi.Manager, in gdbi.InPipe, 
 				out <- t
 				continue
 			}
+			if t.IsNull() {
+				//no element to project
+				out <- t
+				continue
+			}
 			o := jsonpath.SelectTravelerFields(t, f.keys...)
 			out <- o
 		}
@@ -471,6 +482,11 @@ func (r *Unwind) Process(ctx context.Context, man gdbi.Manager, in gdbi.InPipe, 
 		defer close(out)
 		for t := range in {
 			if t.IsSignal() {
+				out <- t
+				continue
+			}
+			if t.IsNull() {
+				//no element to unwind
 				out <- t
 				continue
 			}
@@ -543,7 +559,7 @@ func (h *HasLabel) Process(ctx context.Context, man gdbi.Manager, in gdbi.InPipe
 				out <- t
 				continue
 			}
-			if contains(labels, t.GetCurrent().Label) {
+			if cur := t.GetCurrent(); cur != nil && contains(labels, cur.Label) {
 				out <- t
 			}
 		}
